@@ -264,7 +264,7 @@
     }
 
     /// C08: HEARTBEAT submessage round trip (submessage level: real writer incl. header and length back-patching, real
-    /// header decoder, real HEARTBEAT decoder), every field value.
+    /// header decoder, real HEARTBEAT decoder), every field value of a valid HEARTBEAT (first_sn >= 1, last_sn >= first_sn - 1).
     /// @props C08
     /// @kind proof
     /// @tier quick
@@ -272,7 +272,12 @@
     /// @fn write_submessage_into_bytes_vec, SubmessageHeaderRead::try_read_from_bytes, HeartbeatSubmessage::try_from_bytes
     #[cfg_attr(kani, kani::proof)]
     fn c08_heartbeat_submessage_round_trip() {
-        let x = HeartbeatSubmessage::new(kani::any(), kani::any(), any_entity_id(), any_entity_id(), kani::any(), kani::any(), kani::any());
+        // every VALID heartbeat (RTPS 8.3.7.5.3: first_sn >= 1, last_sn >= first_sn - 1 - what dust-dds writes and what the
+        // decoder accepts since the validity repair)
+        let first_sn: i64 = kani::any();
+        let last_sn: i64 = kani::any();
+        kani::assume(first_sn >= 1 && last_sn >= first_sn - 1);
+        let x = HeartbeatSubmessage::new(kani::any(), kani::any(), any_entity_id(), any_entity_id(), first_sn, last_sn, kani::any());
         let bytes = sub_bytes(&x);
         assert!(bytes.len() == 4 + 28, "C08: HEARTBEAT is 28 bytes after the header");
         let mut d: &[u8] = &bytes;
